@@ -26,6 +26,7 @@
 #include "cdns_decoder.h"
 #include "cdns_encoder.h"
 #include "file_preamble.h"
+#include "interface.h"
 #include "timestamp.h"
 using namespace CDNS;
 
@@ -168,6 +169,68 @@ template<class S> static void run(const Probe<S>& pr) {
     std::printf("RT %s %d\n", pr.name, (rc == 0 && again == ab) ? 1 : 0);
 }
 
+// The block itself and its tables map: a block holding one of everything (a query/response with all sections, an address
+// event, a malformed message with payload, statistics) built through the generic record interface, written, parsed.
+static void report_map(const char* name, const std::string& bytes, const It& m, bool with_req,
+                       const std::function<int(const std::string&)>& try_read) {
+    std::vector<KV> am;
+    for (size_t i = 0; i + 1 < m.kids.size(); i += 2)
+        am.push_back({key_of(m.kids[i]), bytes.substr(m.kids[i].begin, m.kids[i + 1].end - m.kids[i].begin), m.kids[i + 1]});
+    std::printf("BASE %s\n", name);
+    for (auto& kv : am) std::printf("W %s k%lld %lld %s\n", name, kv.key, kv.key, sig(kv.val).c_str());
+    std::printf("ORDER %s", name); for (auto& kv : am) std::printf(" %lld", kv.key); std::printf("\n");
+    for (size_t i = 0; i < am.size(); i++) {
+        int rc = 0;
+        if (with_req) {
+            std::string bs; bs.push_back((char)(0xa0 + (am.size() - 1)));
+            for (size_t j = 0; j < am.size(); j++) if (j != i) bs += am[j].bytes;
+            rc = try_read(bs);
+        }
+        std::printf("REQ %s %lld %d\n", name, am[i].key, rc);
+    }
+    std::printf("RT %s %d\n", name, try_read(bytes.substr(m.begin, m.end - m.begin)) == 0 ? 1 : 0);
+}
+
+static void probe_block() {
+    BlockParameters bp;
+    CdnsBlock b(bp, 0);
+    GenericResourceRecord rr; rr.name = std::string("\x03www\x00", 5); rr.classtype.type = 1; rr.classtype.class_ = 1; rr.ttl = 5; rr.rdata = std::string("rd");
+    GenericQueryResponse g;
+    g.ts = Timestamp(100, 5); g.client_ip = std::string("\x0a\x00\x00\x01", 4); g.server_ip = std::string("\x0a\x00\x00\x02", 4); g.query_opcode = 0;
+    g.query_name = std::string("\x03""abc\x00", 5);
+    g.query_questions = std::vector<GenericResourceRecord>{ rr }; g.query_answers = std::vector<GenericResourceRecord>{ rr };
+    BlockStatistics st; st.processed_messages = 1;
+    b.add_question_response_record(g, st);
+    GenericAddressEventCount ae; ae.ae_type = static_cast<AddressEventTypeValues>(0); ae.ip_address = std::string("\x0a\x00\x00\x04", 4);
+    b.add_address_event_count(ae, boost::none);
+    GenericMalformedMessage mm; mm.ts = Timestamp(101, 0); mm.mm_payload = std::string("junk");
+    b.add_malformed_message(mm, boost::none);
+    std::string bytes = emit([&](CdnsEncoder& e) { b.write(e); });
+    size_t p = 0; It m = parse(bytes, p);
+    if (m.major != 5 || p != bytes.size()) throw std::runtime_error("block: not exactly one map");
+    std::vector<BlockParameters> bps{ bp };
+    auto try_block = [&](const std::string& bs) -> int {
+        std::istringstream is(bs); CdnsDecoder dec(is);
+        try { CdnsBlockRead rd(dec, bps); return 0; } catch (CdnsDecoderException&) { return 1; } catch (std::exception&) { return 2; }
+    };
+    report_map("Block", bytes, m, true, try_block);
+    // the tables map is the value of the block's member 2; it is read as part of the block (no mandatory member of its own)
+    for (size_t i = 0; i + 1 < m.kids.size(); i += 2)
+        if (key_of(m.kids[i]) == 2) {
+            const It& t = m.kids[i + 1];
+            auto try_tables = [&](const std::string& tb) -> int {
+                // the block with its tables member replaced
+                std::string bs; bs.push_back((char)(0xa0 + m.kids.size() / 2));
+                for (size_t j = 0; j + 1 < m.kids.size(); j += 2) {
+                    bs += bytes.substr(m.kids[j].begin, m.kids[j].end - m.kids[j].begin);
+                    bs += (j == i) ? tb : bytes.substr(m.kids[j + 1].begin, m.kids[j + 1].end - m.kids[j + 1].begin);
+                }
+                return try_block(bs);
+            };
+            report_map("BlockTables", bytes, t, false, try_tables);
+        }
+}
+
 #define M(S, f) { #f, [](S& s) { mx(s.f); } }
 #define PLAIN(S) [](S& s, CdnsEncoder& e) { return s.write(e); }
 
@@ -234,6 +297,7 @@ int main() {
     run(Probe<FilePreamble>{"FilePreamble", PLAIN(FilePreamble), {
         M(FilePreamble, m_major_format_version), M(FilePreamble, m_minor_format_version), M(FilePreamble, m_private_version),
         { "m_block_parameters", [](FilePreamble& s) { s.m_block_parameters.push_back(BlockParameters()); } } }});
+    probe_block();
     } catch (std::exception& e) {
         std::printf("ERROR %s\n", e.what());
         return 1;
